@@ -604,3 +604,96 @@ func TestRegression(t *testing.T) {
 		ev.Case(oc.interleaved && oc.derivedWrote && oc.bigLine, ev.Hash("reg", sc.render()), sc.render)
 	}
 }
+
+// ---- values that log while they are rendered ----
+
+// chatty is a value whose rendering - through whichever interface the handler consults - logs a record of its own
+// through a logger of the same tree (a lazy lookup that reports a cache miss, an error type that logs when it is
+// formatted), directly or on a helper goroutine it waits for.
+type chatty struct {
+	via    *logger.Logger
+	helper bool
+	n      *atomic.Int32
+}
+
+func (c chatty) say(how string) {
+	c.n.Add(1)
+	f := func() { c.via.Warn("id-inner- logged while a value of another record is rendered", "how", how) }
+	if c.helper {
+		done := make(chan struct{})
+		go func() { defer close(done); f() }()
+		<-done
+		return
+	}
+	f()
+}
+
+func (c chatty) LogValue() slog.Value { c.say("LogValue"); return slog.StringValue("resolved") }
+
+type chattyText struct{ chatty }
+
+func (c chattyText) MarshalText() ([]byte, error) { c.say("MarshalText"); return []byte("text"), nil }
+func (c chattyText) MarshalJSON() ([]byte, error) { c.say("MarshalJSON"); return []byte(`"json"`), nil }
+func (c chattyText) String() string               { c.say("String"); return "string" }
+
+type chattyErr struct{ chatty }
+
+func (c chattyErr) Error() string { c.say("Error"); return "error text" }
+
+// TestValueThatLogs: the outer record and the record(s) its value logs are both records at an enabled level: each
+// causes exactly one Write, the inner ones first, and the outer line is what it is when the value keeps quiet.
+func TestValueThatLogs(t *testing.T) {
+	rt.Check(t, 150, 20000, func(t *rapid.T) {
+		kind := rapid.IntRange(0, 2).Draw(t, "handler")
+		mon := &monitor{}
+		opts := logger.NewOptions(logger.LevelDebug, false, false)
+		root := logger.New(lm.NewHandler(kind, mon, opts))
+		pick := func(label string) *logger.Logger {
+			switch rapid.IntRange(0, 2).Draw(t, label) {
+			case 0:
+				return root
+			case 1:
+				return root.With("side", label)
+			}
+			return root.WithGroup("g"+label).With("k", 1)
+		}
+		outer, inner := pick("outerLogger"), pick("innerLogger")
+		var calls atomic.Int32
+		base := chatty{via: inner, helper: rapid.Bool().Draw(t, "onAHelperGoroutine"), n: &calls}
+		shape := rapid.IntRange(0, 3).Draw(t, "valueShape")
+		var val any
+		switch shape {
+		case 0:
+			val = base
+		case 1:
+			val = chattyText{base}
+		case 2:
+			val = chattyErr{base}
+		default:
+			val = slog.GroupValue(slog.Any("deep", base))
+		}
+		desc := fmt.Sprintf("%s: value shape %d (0 LogValuer, 1 marshaler/stringer, 2 error, 3 LogValuer inside a group), helper goroutine: %v", lm.HandlerNames[kind], shape, base.helper)
+		rt.Describe(desc)
+		outer.Info("id-outer- the record whose value logs", "quiet", 1, "loud", val, "after", true)
+		if len(mon.problems) > 0 {
+			t.Fatalf("%s\n%s", strings.Join(mon.problems, "; "), desc)
+		}
+		n := int(calls.Load())
+		if len(mon.writes) != n+1 {
+			t.Fatalf("%s: the value logged %d record(s) while it was rendered, plus the outer record: %d Write calls, want %d", desc, n, len(mon.writes), n+1)
+		}
+		for i, w := range mon.writes {
+			want := "id-inner-"
+			if i == n {
+				want = "id-outer-"
+			}
+			if ids := idRe2.FindAllString(string(w), -1); len(ids) != 1 || ids[0] != want {
+				t.Fatalf("%s: Write #%d carries the ids %v, want exactly %s: %q", desc, i, ids, want, clip(w))
+			}
+		}
+		ev.Label("value_logs_while_it_is_rendered:" + lm.HandlerNames[kind])
+		ev.Case(n > 0, ev.Hash("chatty", desc), func() string { return desc })
+	})
+}
+
+var idRe2 = regexp.MustCompile(`id-(inner|outer)-`)
